@@ -574,6 +574,11 @@ def _mapping_cells(ctx, reqs, pending):
         pending.append(({'kind': 'rwvm-init', 'lut': n_lut, 'slope': slope, 'intercept': icpt, 'range': list(vr)}, 'rwvm-init', st))
         ctx.case(kind='rwvm-init', outcome=st)
         # oracle: what was accepted is a LUT with one entry per value, or a linear mapping
+        should = (n_lut is None and slope is not None and icpt is not None) or \
+            (n_lut is not None and slope is None and icpt is None and not is_float and n_lut == int(vr[1]) - int(vr[0]) + 1)
+        if should and st != 'ok':
+            ctx.fail({'kind': 'rwvm-init', 'lut': n_lut, 'slope': slope, 'intercept': icpt, 'range': list(vr)},
+                     f'a consistent real-world value mapping was refused: {m}', site='rwvm-init')
         if st == 'ok':
             good = (m.has_lut() and n_lut == int(vr[1]) - int(vr[0]) + 1 and not is_float and slope is None and icpt is None) or \
                 (not m.has_lut() and slope is not None and icpt is not None and n_lut is None)
@@ -867,12 +872,27 @@ def run(ctx):
     import warnings
     warnings.simplefilter('ignore')
     reqs, pending = [], []
-    _pm_refusals(ctx, reqs, pending)
-    _mapping_cells(ctx, reqs, pending)
+    crashed = []
+
+    def section(f, *a):
+        # a crash of one section (e.g. because a mutation makes the generator's own constructor calls fail) must not
+        # hide what the other sections find; it is re-raised at the end
+        try:
+            f(*a)
+        except Exception as e:  # noqa: BLE001
+            import traceback
+            crashed.append(e)
+            ctx.note(f'section {f.__name__} crashed: ' + traceback.format_exc()[-600:])
+    section(_mapping_cells, ctx, reqs, pending)
+    section(_pm_refusals, ctx, reqs, pending)
     for idx in range(ctx.n(60, 2500)):
-        _check_pm(ctx, idx, reqs, pending)
-    _sc_cells(ctx, reqs, pending)
-    _sc_random(ctx, reqs, pending)
+        if len(crashed) > 3:
+            break
+        section(_check_pm, ctx, idx, reqs, pending)
+    section(_sc_cells, ctx, reqs, pending)
+    section(_sc_random, ctx, reqs, pending)
+    n_pairs = min(len(reqs), len(pending))
+    reqs, pending = reqs[:n_pairs], pending[:n_pairs]
     answers = ctx.model(reqs)
     if answers is None:
         return
@@ -889,6 +909,8 @@ def run(ctx):
         elif what == 'rwvm-apply':
             if 'proto_err' in ans or (impl == 'err') != ('err' in ans) or (impl != 'err' and ans.get('ok') != impl):
                 ctx.disagree('L0', case, impl, ans, 'RealWorldValueMapping.apply')
+    if crashed:
+        raise crashed[0]
 
 
 def _float_witness(ctx):
